@@ -26,4 +26,15 @@ for d in sorted(glob.glob('seeded/*')):
     m=json.load(open(d+'/meta.json'))
     caught=[f"{k}: {v['first'][:100]}" for k,v in m.get('checks_run',{}).items() if isinstance(v,dict) and v.get('exit')==1]
     rows.append(f"| `{os.path.basename(d)}` | {m['breaks_property']} | {m.get('round','')} | {m['needs_to_manifest']} | {'yes' if m.get('caught_before_any_strengthening') else 'no'} | {m.get('strengthening_it_prompted','—')} | {'<br>'.join(caught) if caught else ('not in the quick tier; ' + m['thorough_tier'] if m.get('thorough_tier') else '**not caught**')} |")
-open('seeded/README.md','w').write("# Seeded property-breaking changes\n\nEach directory: `patch.diff` (applies to /repo's HEAD), `demo.rs` (fails with the change, passes without), `NOTES.md` (the author's description), `meta.json` (property, what it needs to manifest, what was run). All were written by sub-agents that saw only the property text and a scratch worktree, were confirmed with `tools/confirm_mutant.sh` (patch applies; 41 unit tests pass with it; demonstration fails with it and passes without), and are exercised with `tools/run_seeded.sh` / `tools/seeded_all.py` (quick tier; the change is applied to /repo, the checks run, the change is undone).\n\n'caught before' = caught by the checks as they were when the change arrived (evaluated with the previous commit of /verif built in a scratch worktree); the next column says what was added because of it.\n\n| change | property | round | needs in order to manifest | caught before | strengthening it prompted | caught by now (quick tier) |\n|---|---|---|---|---|---|---|\n"+"\n".join(rows)+"\n")
+HEADER = """# Seeded property-breaking changes
+
+Each directory: `patch.diff` (applies to /repo's HEAD), `demo.rs` (fails with the change, passes without), `NOTES.md` (the author's description), `meta.json` (property, what it needs to manifest, what was run). All were written by sub-agents that saw only the property text, a scratch worktree and the list of earlier ideas (round 6 additionally a black-box description of what the checks can do, and the request to evade it), were confirmed with `tools/confirm_mutant.sh` (patch applies; 41 unit tests pass with it; demonstration fails with it and passes without), and are exercised with `tools/run_seeded.sh` / `tools/seeded_all.py` (quick tier; the change is applied to a scratch worktree of /repo, never to /repo itself; the checks run from a scratch copy of /verif).
+
+'caught before' = caught by the checks as they were when the change arrived; the next column says what was added because of it. The last column is the outcome of the last regression run of the QUICK tier; where a change is reported by the thorough tier only, that is said there (and was verified as described).
+
+Other material here: `benign/` (behaviour-preserving refactors that must stay green), `selfmade/` (changes of my own that exercise one path of the machinery each), `sweep/` (survivors of the syntactic mutation sweep that turned out to be real gaps).
+
+| change | property | round | needs in order to manifest | caught before | strengthening it prompted | caught by now (quick tier) |
+|---|---|---|---|---|---|---|
+"""
+open('seeded/README.md','w').write(HEADER+"\n".join(rows)+"\n")
